@@ -126,6 +126,44 @@ int main(int argc, char** argv) {
             }
             edn_arena_destroy(a);
             buf_free(&b);
+        } else if (!strcmp(cmd, "int64") && nt == 4) {
+            /* number.c parse_int64_from_buffer (static) */
+            buf_t b = buf_from_hex(tok[1]);
+            int64_t v = 0;
+            bool ok = parse_int64_from_buffer(b.p, b.p + b.n, &v, (uint8_t) atoi(tok[2]), atoi(tok[3]) != 0);
+            if (ok) printf("OK %" PRId64 "\n", v); else printf("OVERFLOW\n");
+            buf_free(&b);
+        } else if (!strcmp(cmd, "swar") && nt == 2) {
+            buf_t b = buf_from_hex(tok[1]);
+            if (is_made_of_eight_digits_fast(b.p)) printf("1 %u\n", parse_eight_digits_unrolled(b.p));
+            else printf("0\n");
+            buf_free(&b);
+        } else if (!strcmp(cmd, "swarall") && nt == 3) {
+            /* every 8-digit block in [lo, hi): SWAR converter against plain arithmetic */
+            unsigned long lo = strtoul(tok[1], 0, 10), hi = strtoul(tok[2], 0, 10), bad = 0, first = 0;
+            char blk[9];
+            for (unsigned long v = lo; v < hi; v++) {
+                unsigned long t = v;
+                for (int i = 7; i >= 0; i--) { blk[i] = (char) ('0' + t % 10); t /= 10; }
+                if (!is_made_of_eight_digits_fast(blk) || parse_eight_digits_unrolled(blk) != v) {
+                    if (!bad) first = v;
+                    bad++;
+                }
+            }
+            if (bad) printf("BAD %lu first=%08lu\n", bad, first); else printf("OK %lu\n", hi - lo);
+        } else if (!strcmp(cmd, "double") && nt == 2) {
+            buf_t b = buf_from_hex(tok[1]);
+            double d = parse_double_from_buffer(b.p, b.p + b.n);
+            uint64_t u; memcpy(&u, &d, 8);
+            if (d != d) u = 0x7FF8000000000000ULL;
+            printf("%016" PRIx64 "\n", u);
+            buf_free(&b);
+        } else if (!strcmp(cmd, "gcd") && nt == 3) {
+#ifdef EDN_ENABLE_CLOJURE_EXTENSION
+            printf("%" PRId64 "\n", ratio_gcd(strtoll(tok[1], 0, 10), strtoll(tok[2], 0, 10)));
+#else
+            printf("NA\n");
+#endif
         } else if (!h_dump_command(cmd, nt, tok)) {
             printf("BADCMD %s\n", cmd);
         }
